@@ -13,6 +13,8 @@ def okEvent (s : WState α) : Event α → Prop
   | .deleteAll => cleanState s
   | .mergeStart _ _ => False
   | .mergeEnd _ => False
+  | .stamp _ => False
+  | .publish _ => False
   | _ => True
 
 /-- along the run, every event is covered -/
@@ -122,6 +124,8 @@ theorem inv_step (s s' : WState α) (t : SpecState α) (e : Event α) (r : Nat)
     exact inv_flush s _ _ h
   | mergeStart ids policy => exact hok.elim
   | mergeEnd k => exact hok.elim
+  | stamp op => exact hok.elim
+  | publish k => exact hok.elim
 
 theorem history_cons (e : Event α) (es : List (Event α)) (t : SpecState α) :
     replayFrom t (history (e :: es)) = replayFrom (specAfter t e) (history es) := by
